@@ -159,6 +159,35 @@ class Builder:
     def b_Tern(self, e, env):
         return getattr(pt, e[1])(self.b(e[2], env), self.b(e[3], env), self.b(e[4], env))
 
+    def b_PyCall(self, e, env):
+        """("PyCall", "Dotted.name", arg...) - any other public constructor, used by the legality probes only;
+        an argument ("PyAttr", "Dotted.name") is passed as the attribute itself (enum members)"""
+        obj = pt
+        for part in e[1].split("."):
+            obj = getattr(obj, part)
+        args = []
+        for a in e[2:]:
+            if isinstance(a, tuple) and a and a[0] == "PyAttr":
+                x = pt
+                for part in a[1].split("."):
+                    x = getattr(x, part)
+                args.append(x)
+            elif isinstance(a, tuple) and a and a[0] == "PyTuple":
+                args.append(tuple(self.b(x, env) for x in a[1:]))
+            else:
+                args.append(self.b(a, env))
+        return obj(*args)
+
+    def b_MultiSeq(self, e, env):
+        """("MultiSeq", multivalue-recipe, body): evaluates a MultiValue / MaybeValue and then the body"""
+        mv = self.b(e[1], env)
+        self._maybe_stack.append(mv)
+        try:
+            body = self.b(e[2], env)
+        finally:
+            self._maybe_stack.pop()
+        return pt.Seq(mv, body)
+
     def b_WideRatio(self, e, env):
         return pt.WideRatio([self.b(c, env) for c in e[1]], [self.b(c, env) for c in e[2]])
 
